@@ -60,8 +60,8 @@ CHECKS.update({
 CHECKS.update({
  "C11": dict(
    technique="bounded-exhaustive enumeration of task programs (all scheduling times, insertion orders, periods, chains up to the task bound) run on the real VM and WASM schedulers and compared with a sorted-multiset reference at every sample (shape S)",
-   text="Every program with up to k tasks, each first scheduled from global scope at one of four times (equal and fractional times included) or chained from the previous task, and rescheduling itself with one of four periods, is run on both runtimes with the scheduler plugin; after every sample each task's run counter and the time it observed must equal the reference in which a task scheduled for w runs exactly once before dsp of sample floor(w). A second family binds two closure values inside a function and issues every sequence of requests over 2 closures x 4 times, so that one closure value is also requested several times for one sample.",
-   note="Per-task counter cells make same-sample ordering unobservable. Scheduling from inside dsp is not generated.",
+   text="Every program with up to k tasks, each first scheduled from global scope at one of four times (equal and fractional times included), chained from the previous task, or scheduled by dsp itself at sample 2, and rescheduling itself with one of four periods, is run on both runtimes with the scheduler plugin; after every sample each task's run counter and the time it observed must equal the reference in which a task scheduled for w runs exactly once before dsp of sample floor(w). A second family binds two closure values inside a function and issues every sequence of requests over 2 closures x 4 times, so that one closure value is also requested several times for one sample.",
+   note="Per-task counter cells make same-sample ordering unobservable. dsp schedules at one fixed sample only.",
    design="4/C11"),
 })
 CHECKS.update({
